@@ -455,6 +455,16 @@ def run_secure(ctx, drv, cov, add, xc, canon_msgs, catalogue, rand_msg, mutate, 
             j = r.randrange(len(blocks))
             tamper = (j, r.randrange(0, len(blocks[j]) + 16), r.randrange(8))
         tail = r.choice([1, 2, 3, 18, 19, 500]) if r.random() < 0.2 else None
+        if i % 6 == 0:
+            # forged block AFTER complete messages: short catalogue messages, one or two blocks each, block j >= 1 forged
+            ms = [r.choice(core) for _ in range(r.choice([2, 3, 4]))]
+            p, wellformed, mode = b"".join(m[0] for m in ms), True, "per-message"
+            blocks = []
+            for m in ms:
+                k = r.choice([0, 0, r.randrange(1, len(m[0]))])
+                blocks += [m[0][:k], m[0][k:]] if k else [m[0]]
+            j = r.randrange(1, len(blocks))
+            tamper, tail = (j, r.randrange(0, len(blocks[j]) + 16), r.randrange(8)), None
         if tamper is not None and tail is not None and tamper[0] == len(blocks) - 1:
             tail = None
         ctr = r.choice(CTRS)
@@ -470,6 +480,10 @@ def run_secure(ctx, drv, cov, add, xc, canon_msgs, catalogue, rand_msg, mutate, 
             cuts = ()
         else:
             cuts = frame_cuts(r, c, r.choice([1, 2, 3, 5, 8, 13, 30]))
+        if tamper is not None and tamper[0] > 0 and i % 2:
+            # the forged block arrives in the SAME read as complete authentic blocks before it (one read, or one cut
+            # inside the first block): what those blocks complete must be delivered before the session ends
+            cuts = () if i % 4 == 1 else (r.randrange(1, c.ends[0]),)
         rcases.append((c, cuts))
     lines = [c.request("sfeed", cut(c.stream, cuts)) for c, cuts in rcases]
     answers = drv.batch(lines)
@@ -501,7 +515,11 @@ def run_secure(ctx, drv, cov, add, xc, canon_msgs, catalogue, rand_msg, mutate, 
                  if stats["random_streams"] % 97 == 0 else None,
                  stream="E-secure-random", sec_blocks=min(len(c.blocks), 9), sec_n_cuts=len(cuts) if len(cuts) < 31 else "bytewise",
                  sec_kind="tampered" if c.tamper is not None else "wellformed" if c.wellformed else "malformed-plaintext",
-                 sec_model_class=mcls, sec_maxblock=max(len(b) for b in c.blocks) // 256 * 256)
+                 sec_model_class=mcls, sec_maxblock=max(len(b) for b in c.blocks) // 256 * 256,
+                 sec_forged_with_earlier_blocks_in_same_read=(None if c.crash_at is None else
+                                                              any(x < c.crash_at for x in c.ends[: c.tamper[0]]) and
+                                                              not any(c.ends[c.tamper[0] - 1] <= x < c.crash_at for x in cuts)
+                                                              if c.tamper[0] > 0 else False))
         for ct_ in cuts[:40]:
             cov.hist["sec_cut_region"][c.region(ct_)] += 1
     cov.extra["secure_stream"] = stats
